@@ -650,9 +650,9 @@ impl Property for C19 {
             rng.range(60, 300) as u32
         } else if !zst && rng.chance(1, 400) {
             rng.range(3000, 9000) as u32
-        } else if !zst && rng.chance(1, 15_000) {
+        } else if !zst && rng.chance(1, 6_000) {
             // beyond 2^16 / 2^17 / 2^18 / 2^20 stored values, even and odd
-            *rng.pick(&[65_540u32, 131_071, 131_072, 131_073, 200_001, 262_144, 262_145, 262_147, 1_048_576, 1_048_580, 1_100_000])
+            *rng.pick(&[65_540u32, 131_071, 131_072, 131_073, 200_001, 262_144, 262_145, 262_147, 300_001, 524_289, 1_048_576, 1_048_577, 1_100_000])
         } else {
             0
         };
@@ -683,7 +683,7 @@ impl Property for C19 {
                 }
             }
         }
-        if prefill >= 65_540 && rng.chance(1, 2) {
+        if prefill >= 65_540 && rng.chance(3, 4) {
             // a duplicate of a value around the middle (or half a storage below the end) appended on top, then fetched:
             // scans that work in halves or from both ends must still return the first occurrence
             let n = prefill as u64;
@@ -844,7 +844,7 @@ impl Property for C19 {
         Meta {
             level: "exploration",
             rule: "each run is a seeded history of 1-40 append/fetch_or_append/lookup operations on one Storage under one equality relation (by-class, NaN-like, non-transitive) with an optional unwinding comparison; the abstract trace is the sequence of (operation, outcome: appended/found/unwound); a run is non-trivial if it appended >= 3 values or its unwind fault fired; distinct = distinct abstract traces among non-trivial runs",
-            lanes: "element types: struct, two-variant enum, zero-sized, 136-byte, 65 600-byte (1/1500 runs), 1 MiB+ and 4 MiB+ (1/18000 runs each); irreflexive relation; `ne` inconsistent with `eq`; storages built by new(), default() or left behind by mem::take; storages pre-filled (by append or by fetch_or_append) with 60..300 (1/60 runs), 3e3..9e3 (1/400 runs) and 2^16..1.1e6 (1/40000 runs) values",
+            lanes: "element types: struct, two-variant enum, zero-sized, 136-byte, 65 600-byte (1/1500 runs), 1 MiB+ and 4 MiB+ (1/18000 runs each); irreflexive relation; `ne` inconsistent with `eq`; storages built by new(), default() or left behind by mem::take; storages pre-filled (by append or by fetch_or_append) with 60..300 (1/60 runs), 3e3..9e3 (1/400 runs) and 2^16..1.1e6 (1/6000 runs; even and odd lengths; a duplicate of the middle value appended on top and fetched) values",
             triple_measure: "(relation, operation, outcome)",
             item_measure: "n/a",
             assumptions: &[
